@@ -135,6 +135,10 @@ func newVC(w *World, pkg *PkgInfo, fd *ast.FuncDecl, c *Contract) *VC {
 	vc.declareFun("pr2", "(Int) Int")
 	vc.addAxiomKeyed([]string{"pr"}, "(forall ((a Int) (i Int)) (! (and (= (pr1 (pr a i)) a) (= (pr2 (pr a i)) i)) :pattern ((pr a i))))")
 	vc.declareFun("strlen", "(Int) Int")
+	vc.declareFun("qmarks", "(Int) Int")
+	vc.addAxiomKeyed([]string{"qmarks"}, "(forall ((s Int)) (! (>= (qmarks s) 0) :pattern ((qmarks s))))")
+	vc.addAxiomKeyed([]string{"qmarks"}, "(= (qmarks 0) 0)")
+	vc.addAxiomKeyed([]string{"qmarks", "strcat"}, "(forall ((a Int) (b Int)) (! (= (qmarks (strcat a b)) (+ (qmarks a) (qmarks b))) :pattern ((strcat a b))))")
 	vc.declareFun("strat", "(Int Int) Int")
 	vc.declareFun("strcat", "(Int Int) Int")
 	vc.declareFun("typeof", "(Int) Int")
@@ -275,7 +279,7 @@ func (vc *VC) heapSymWF(sym, comp, sort, alloc string) {
 	case strings.HasSuffix(comp, "#arr"):
 		facts = append(facts, smtOr(smtEq(cell, "0"), sel(alloc, cell)))
 	case strings.HasSuffix(comp, "#len"), strings.HasSuffix(comp, "#off"), strings.HasSuffix(comp, "#cap"):
-		facts = append(facts, app("<=", "0", cell))
+		facts = append(facts, app("<=", "0", cell, "2305843009213693952"))
 	case T != nil && isPointer(T):
 		facts = append(facts, smtOr(smtEq(cell, "0"), sel(alloc, cell)))
 	case T != nil:
@@ -407,10 +411,14 @@ func (vc *VC) storeShape(st *State, comp string, T types.Type, lvl int, outer st
 	vc.heapUpdate(st, comp, sortAt("Int", lvl), outer, upd(h, val.Term))
 }
 
+// maxSliceLen: no Go slice can be longer than the address space; 2^62 keeps index arithmetic far from int64 overflow.
+const maxSliceLen = "4611686018427387904"
+
 func (vc *VC) assumeSliceWF(st *State, v *Value) {
 	st.assume(app("<=", "0", v.Len))
 	st.assume(app("<=", v.Len, v.Cap))
 	st.assume(app("<=", "0", v.Off))
+	st.assume(app("<=", app("+", v.Off, v.Cap), maxSliceLen))
 }
 
 func (vc *VC) assumeTyped(st *State, v *Value) {
@@ -653,6 +661,7 @@ func (vc *VC) strLit(s string) string {
 	vc.strlits[s] = n
 	vc.declare(n, "Int")
 	vc.addAxiom(fmt.Sprintf("(= (strlen %s) %d)", n, len(s)))
+	vc.addAxiom(fmt.Sprintf("(= (qmarks %s) %d)", n, strings.Count(s, "?")))
 	vc.addAxiom(fmt.Sprintf("(not (= %s 0))", n))
 	if len(s) <= 48 {
 		for i := 0; i < len(s); i++ {
